@@ -400,7 +400,9 @@ class DDPG(RLAlgorithm):
         q_value = self.critic(obs, actions)
         with torch.no_grad():
             next_actions = self.actor_target(next_obs)
-            noise = actions.data.normal_(0, policy_noise)
+            # NOTE: draw the noise into a new tensor; drawing it in place would overwrite the
+            # caller's actions (a batch or dataset slice that is learned from again)
+            noise = torch.empty_like(actions).normal_(0, policy_noise)
             noise = self.multi_dim_clamp(-noise_clip, noise_clip, noise)
             next_actions = next_actions + noise
             next_actions = self.multi_dim_clamp(
